@@ -378,17 +378,25 @@ def Got.append (a b : Got) : Got :=
       | some x, some y => some (x ++ y)),
     m := a.m ++ b.m }
 
-/-- Everybody who is not paused takes what is in its channel. -/
+/-- Everybody who is not paused takes what is in its channel — what IS in it when the draining starts: a send that was
+waiting for room gets the freed slot at once (`envStep`'s `progress`: nobody else can take it), but its message is in the
+channel only once the sender has been polled again, which the adapter does after the draining (f-round: with the loop
+suspended in `report_substream_open` and everything else of the connection released, the loop goes on — and accepts a
+waiting remote substream on the permit inside the queued event — BEFORE the protocol takes that event). -/
 def drainAll (d : DState) : DState × Got :=
+  let lens := (List.range d.n).map fun i => match d.t.loop.ps.chans[i]? with
+    | some c => c.queue.length
+    | none => 0
+  let mlen := d.t.loop.ps.mgr.queue.length
   let (d, parts) := (List.range d.n).foldl (fun (acc : DState × List (Option (List String))) i =>
     let alive := match acc.1.t.loop.ps.chans[i]? with
       | some c => c.alive
       | none => false
     if !alive then (acc.1, acc.2 ++ [none]) else
     if acc.1.paused.getD i false then (acc.1, acc.2 ++ [some []]) else
-    let (d', ms) := drainProto 256 acc.1 i []
+    let (d', ms) := drainProto (lens.getD i 0) acc.1 i []
     (d', acc.2 ++ [some ms])) (d, [])
-  let (d, mm) := if d.pausedM then (d, []) else drainMgr 256 d []
+  let (d, mm) := if d.pausedM then (d, []) else drainMgr mlen d []
   (d, { ps := parts, m := mm })
 
 def render (d : DState) (ret : String) (g : Got) : String :=
